@@ -34,9 +34,13 @@ structure BInv (B : List (List α)) : Prop where
   depsEarlier : ∀ (i : Nat) (b : List α), B[i]? = some b → ∀ c ∈ b, ∀ d ∈ deps c,
     ∃ j : Nat, j < i ∧ ∃ b' : List α, B[j]? = some b' ∧ d ∈ b'
   nodup : B.flatten.Nodup
+  /-- a node is placed as soon as its dependencies are -/
+  asap : ∀ (i : Nat) (b : List α), B[i]? = some b → ∀ c ∈ nodes,
+    (∀ d ∈ deps c, ∃ j : Nat, j < i ∧ ∃ b' : List α, B[j]? = some b' ∧ d ∈ b') →
+    ∃ j : Nat, j ≤ i ∧ ∃ b' : List α, B[j]? = some b' ∧ c ∈ b'
 
 theorem binv_nil : BInv nodes deps ([] : List (List α)) :=
-  ⟨by intro i b h; simp at h, by intro i b h; simp at h, by simp⟩
+  ⟨by intro i b h; simp at h, by intro i b h; simp at h, by simp, by intro i b h; simp at h⟩
 
 theorem getElem?_snoc_cases {β : Type} (B : List β) (x : β) (i : Nat) (b : β)
     (h : (B ++ [x])[i]? = some b) : B[i]? = some b ∨ (i = B.length ∧ b = x) := by
@@ -54,7 +58,7 @@ theorem getElem?_snoc_cases {β : Type} (B : List β) (x : β) (i : Nat) (b : β
 
 theorem binv_round (hn : nodes.Nodup) {B : List (List α)} (h : BInv nodes deps B) :
     BInv nodes deps (B ++ [peelNew nodes deps B.flatten]) := by
-  refine ⟨?_, ?_, ?_⟩
+  refine ⟨?_, ?_, ?_, ?_⟩
   · intro i b hb c hc
     rcases getElem?_snoc_cases B _ i b hb with h1 | ⟨_, h2⟩
     · exact h.mem i b h1 c hc
@@ -79,6 +83,32 @@ theorem binv_round (hn : nodes.Nodup) {B : List (List α)} (h : BInv nodes deps 
     · intro a ha b hb hab
       subst hab
       exact ((mem_peelNew nodes deps).1 hb).2.1 ha
+  · intro i b hb c hc hdeps
+    rcases getElem?_snoc_cases B _ i b hb with h1 | ⟨hi, _⟩
+    · have hdeps' : ∀ d ∈ deps c, ∃ j : Nat, j < i ∧ ∃ b' : List α, B[j]? = some b' ∧ d ∈ b' := by
+        intro d hd
+        obtain ⟨j, hj, b', hb', hdb⟩ := hdeps d hd
+        have hjl : j < B.length := by
+          have := (List.getElem?_eq_some_iff.1 h1).1; omega
+        rw [List.getElem?_append_left hjl] at hb'
+        exact ⟨j, hj, b', hb', hdb⟩
+      obtain ⟨j, hj, b', hb', hcb⟩ := h.asap i b h1 c hc hdeps'
+      refine ⟨j, hj, b', ?_, hcb⟩
+      rw [List.getElem?_append_left (List.getElem?_eq_some_iff.1 hb').1]; exact hb'
+    · -- the new batch: c is already placed, or all its dependencies are and it is placed now
+      by_cases hcA : c ∈ B.flatten
+      · obtain ⟨b', hb'B, hcb'⟩ := List.mem_flatten.1 hcA
+        obtain ⟨j, hjlt, hj⟩ := List.mem_iff_getElem.1 hb'B
+        refine ⟨j, by omega, b', ?_, hcb'⟩
+        rw [List.getElem?_append_left hjlt, List.getElem?_eq_getElem hjlt, hj]
+      · have hdA : ∀ d ∈ deps c, d ∈ B.flatten := by
+          intro d hd
+          obtain ⟨j, hj, b', hb', hdb⟩ := hdeps d hd
+          have hjl : j < B.length := by omega
+          rw [List.getElem?_append_left hjl] at hb'
+          exact List.mem_flatten.2 ⟨b', List.mem_of_getElem? hb', hdb⟩
+        refine ⟨B.length, by omega, _, ?_, (mem_peelNew nodes deps).2 ⟨hc, hcA, hdA⟩⟩
+        rw [List.getElem?_append_right (Nat.le_refl _)]; simp
 
 theorem binv_peelB (hn : nodes.Nodup) : ∀ (k : Nat) (B : List (List α)),
     BInv nodes deps B → BInv nodes deps (peelB nodes deps k B)
